@@ -473,6 +473,80 @@ def check_distvalid(ck, prog):
           "ones rejected" % (bad[1], bad[0], bad[0]["full"] > bad[0]["distance"]), key="DISTVALID:dict_is_distance_valid")
 
 
+def check_nullarith(ck, prog):
+    """lzma_code() allows next_in == NULL with avail_in == 0 (and the same for the output side); the pointers reach
+    every function stored in a `code` slot unchanged.  `NULL + 0` is undefined behaviour in C, and the code base avoids
+    it everywhere ("avoid null pointer + 0 (undefined behavior)" comments).  Necessary condition decided here: pointer
+    arithmetic on the `in` / `out` parameter of a code-slot function is dominated by SOME test of that buffer's
+    position/size (or of a local computed from them), by a NULL test of the pointer, or by a reassignment of it --
+    otherwise it is executed unconditionally for the (NULL, 0) call."""
+    ck.rule("C04-NULLARITH", "code-slot functions: pointer arithmetic on in/out is dominated by a test of the buffer's "
+            "position/size, of the pointer, or by a reassignment of the pointer")
+    cg = common.callgraph(prog)
+    slot = {g_.name for g_ in common.code_slot_functions(prog, cg)}
+    PAIR = {"in": ("in_pos", "in_size"), "out": ("out_pos", "out_size")}
+    n = 0
+    for f in sorted(prog.all_functions("liblzma"), key=lambda f: (f.file, f.line)):
+        if not f.blocks or f.name not in slot:
+            continue
+        pn = {p["n"] for p in f.params}
+        dom = None
+        for P, (pos, size) in PAIR.items():
+            if P not in pn:
+                continue
+            derived = {pos, size}
+            changed = True
+            while changed:
+                changed = False
+                for b, i, e in f.iter_elems():
+                    d = ex.deref(e)
+                    tgt = src = None
+                    if d.get("k") == "decl" and d.get("init") is not None:
+                        tgt, src = d["n"], d["init"]
+                    for (l, r, op, node) in ex.writes(e):
+                        ls = ex.strip(l)
+                        if ls is not None and ls.get("k") == "var" and r is not None:
+                            tgt, src = ls["n"], r
+                    if tgt and tgt not in derived and src is not None and not list(ex.calls(src)) and \
+                            any(x.get("k") == "var" and x["n"] in derived for x in ex.walk(src)):
+                        derived.add(tgt)
+                        changed = True
+            ev = set()
+            for b in f.blocks.values():
+                if b.term and "cond" in b.term:
+                    names = {x["n"] for x in ex.walk(b.term["cond"]) if x.get("k") == "var"}
+                    if names & derived or P in names:
+                        ev.add(b.id)
+            for b, i, e in f.iter_elems():
+                for (l, r, op, node) in ex.writes(e):
+                    ls = ex.strip(l)
+                    if ls is not None and ls.get("k") == "var" and ls["n"] == P:
+                        ev.add(b.id)
+            sites = []
+            for b, i, e in list(f.iter_elems()) + [(bb, 1 << 20, bb.term["cond"]) for bb in f.blocks.values()
+                                                   if bb.term and "cond" in bb.term]:
+                for x in ex.walk(e, into_refs=False):
+                    if x.get("k") == "bin" and x["op"] == "+":
+                        l = ex.strip(x["l"])
+                        if l is not None and l.get("k") == "var" and l["n"] == P:
+                            sites.append((b.id, x))
+            if not sites:
+                continue
+            ck.saw_function(f)
+            if dom is None:
+                dom = cfg.dominators(f)
+            for bid, x in sites:
+                n += 1
+                ok = any(d in ev and d != bid for d in dom.get(bid, ()))
+                ck.ob("C04-NULLARITH", "%s:%s@%s" % (f.name, ex.show(x)[:30], ex.line(x)), ok, common.where(f, x),
+                      "%s: `%s` is behind a test of the %s buffer" % (f.name, ex.show(x)[:40], P) if ok else
+                      "%s(): `%s` is computed on every call, with no preceding test of %s/%s or of `%s` itself: for the allowed "
+                      "call next_%s == NULL, avail_%s == 0 this is NULL + 0 (undefined behaviour)" % (
+                          f.name, ex.show(x)[:40], pos, size, P, P, P), key="NULLARITH:%s:%s" % (f.name, ex.show(x)[:40]))
+    ck.floor("C04-NULLARITH", 10)
+    return n
+
+
 def check_allocsz(ck, prog):
     """Allocation sizes of the form  C1 + n * C2  where n comes from the input: n must be clamped to a constant K with
     C1 + K * C2 <= SIZE_MAX, otherwise the multiplication wraps and a tiny block is allocated for n records."""
@@ -635,6 +709,7 @@ def run(ck):
     check_null(ck, prog)
     check_allocsz(ck, prog)
     check_distvalid(ck, prog)
+    check_nullarith(ck, prog)
     # invalid input must not leak (rule shared with C10) nor stall the threaded decoder (rule shared with C07)
     from . import C10, C07
     C10.check_localown(ck, prog)
